@@ -70,6 +70,8 @@ pub enum Op {
     /// SQLite: a foreign writer holds the database's write lock for this long (simulated µs),
     /// starting now; it affects the next request
     ForeignLock { hold_us: i64 },
+    /// the client retries its last upload verbatim (same ids, byte-identical body), as after a lost response
+    Resend,
 }
 
 impl Op {
@@ -87,6 +89,7 @@ impl Op {
             Op::SeedSnap { c, since, age_us } => format!("seed c{c} since={since:?} age_us={age_us:?}"),
             Op::Reconfig { days, versions } => format!("restart with targets days={days} versions={versions}"),
             Op::ForeignLock { hold_us } => format!("foreign writer holds the lock for {hold_us}us"),
+            Op::Resend => "resend the last upload verbatim".into(),
         }
     }
 }
@@ -216,7 +219,7 @@ pub fn gen_len(r: &mut Rng, page: u32, max: u32) -> u32 {
         5 => r.range(200, page as i64 * 3) as u32,
         6 => (page as i64 * r.range(3, 12) + r.range(-3, 3)) as u32,
         7 => r.range(1, 9) as u32 * 1000,
-        8 => *r.pick(&[255u32, 256, 257, 65535, 65536, 65537, 4095, 4096, 4097]),
+        8 => *r.pick(&[255u32, 256, 257, 65535, 65536, 65537, 4095, 4096, 4097, 262_143, 262_144, 262_145, 1_048_575, 1_048_576, 1_048_577]),
         _ => r.range(1, 64) as u32,
     };
     v.clamp(1, max.max(1))
